@@ -301,6 +301,6 @@ func init() {
 		Rule: "model = the list of edits being printed. Every list of k<=2 edits (k=3 over a reduced alphabet) in every spelling: names (letters, CJK, underscore, namespaced with ':', quoted with digits/space) x values (int, float, parenthesised expression, dice under one-sided d1, signed after ':'/'=', computed) x ':'/'='/direct x multiplier forms '*:' and '*x:' x list separators '', ' ', ',', ', ', with and without a trailing reason text. Oracle: the callback log equals the model list (count, order, type, written name, evaluated value sign-normalised for '-', extra, operator, written value text) and RestInput is exactly the reason. Every case is non-trivial (>=1 edit); distinct by source text.",
 		Enumerate: c18Enumerate,
 		Run:       c18Run,
-		Budget:    map[string]time.Duration{"quick": 170 * time.Second, "thorough": 40 * time.Minute},
+		Budget:    map[string]time.Duration{"quick": 400 * time.Second, "thorough": 40 * time.Minute},
 	})
 }
